@@ -89,7 +89,9 @@ class BMPWriter:
 
     def write_line(self, y: int, data: bytes) -> None:
         self.fp.seek(self.pos1 - (y + 1) * self.linesize)
-        self.fp.write(data)
+        # every row occupies linesize bytes in the file, including the top row
+        # that ends the file
+        self.fp.write(data.ljust(self.linesize, b"\x00"))
 
 
 class ImageWriter:
